@@ -149,8 +149,19 @@ func ZzC13() {
 
 	var res *zh.Hdr
 	var err error
+	hashKind := 0 // 0: the hash of the requested header, 1: empty, 2: nil
+	if byHash && zz.Param("EMPTYHASH", 0) == 1 {
+		hashKind = zz.Choice("hash.kind", 3)
+	}
 	if byHash {
-		res, err = ex.Get(context.Background(), zh.HashOf(reqID))
+		switch hashKind {
+		case 1:
+			res, err = ex.Get(context.Background(), header.Hash{})
+		case 2:
+			res, err = ex.Get(context.Background(), nil)
+		default:
+			res, err = ex.Get(context.Background(), zh.HashOf(reqID))
+		}
 	} else {
 		res, err = ex.GetByHeight(context.Background(), reqHeight)
 	}
@@ -170,6 +181,12 @@ func ZzC13() {
 		}
 	}
 	zz.Assert(err != nil || res != nil, "a zero header must never come with a nil error")
+	if hashKind != 0 {
+		// no header has an empty hash: such a request cannot be satisfied
+		zz.Reach("empty-hash")
+		zz.Assert(err != nil, "Get: returned header must have the requested hash")
+		return
+	}
 	if err == nil && res != nil {
 		zz.Reach("ok")
 		zz.Assert(firstValid >= 0, "success although no trusted peer answered validly")
